@@ -23,6 +23,16 @@ type c03Case struct {
 	Nil   bool   `json:"nil,omitempty"` // pass a nil slice instead of an empty one
 	Pre   int    `json:"pre"`           // which pre-loaded receiver
 	Class string `json:"class"`
+	// Seq: a history over two receivers (Dec == "seq"): decodes of recurring inputs with mutations of the receivers in
+	// between, judged after every step against a model of both receivers.
+	Seq []c03Step `json:"seq,omitempty"`
+}
+
+type c03Step struct {
+	Recv int    `json:"recv"`
+	Dec  string `json:"decoder"`
+	In   string `json:"in"`
+	Mut  string `json:"then,omitempty"` // mutation applied to the receiver after the decode: double | negate | identity | base | add-g
 }
 
 var c03ByteDecoders = []string{"Decode", "DecodeCompressed", "DecodeUncompressed", "UnmarshalBinary", "DecodeHex"}
@@ -36,14 +46,17 @@ func init() {
 			"(x,-y), (x,y±1), (y,x), (beta x,y), hybrid 06/07, 04||0||0, 04||0||1, all-zero, the 256 one-byte inputs, nil vs empty; every single-bit flip of two valid encodings; " +
 			"hex: lower/upper/mixed case, odd length, non-hex runes, whitespace, 0x prefix; PRNG mutations. Each byte input goes through every byte decoder, so each form-specific decoder sees the other forms. " +
 			"Oracle: the acceptance predicate of the statement computed with math/big (length, prefix, x<p, y<p, Jacobi symbol, curve equation) and the accepted point; a rejected input must return an error, not panic, and leave the receiver's value unchanged " +
-			"(receivers are pre-loaded with a λ-scaled point, a (0:Y:0) identity, or a random point). non-trivial = length in {1,33,65} for byte decoders, or any coordinates/hex case; distinct by (decoder, input).",
+			"(receivers are pre-loaded with a λ-scaled point, a (0:Y:0) identity, or a random point). " +
+			"History cases: sequences over two receivers in which the same few encodings (valid compressed, valid uncompressed, identity, invalid) recur through all decoders while the receivers are mutated in between (Double, Negate, Identity, Base, Add), " +
+			"both receivers judged against a model after every step (a decoder that remembers an earlier input, or hands out storage shared with an earlier receiver, disagrees here). " +
+			"non-trivial = length in {1,33,65} for byte decoders, or any coordinates/hex case; distinct by (decoder, input) resp. the whole sequence.",
 		NewCase:  func() any { return &c03Case{} },
 		Generate: c03Generate,
 		Run:      c03Run,
 		Require: func(string) map[string]int64 {
 			return map[string]int64{
 				"accept": 2000, "reject": 10000, "reject:x>=p": 100, "reject:off-curve": 500, "reject:alias-x+p": 10, "reject:alias-y+p": 5,
-				"accept:identity": 3, "accept:compressed": 500, "accept:uncompressed": 500, "wrong-form": 500, "hex:uppercase": 20, "hex:invalid": 20,
+				"accept:identity": 3, "accept:compressed": 500, "accept:uncompressed": 500, "wrong-form": 500, "hex:uppercase": 20, "hex:invalid": 20, "seq": 300, "seq-steps": 2000, "seq:repeat-after-mutation": 300,
 			}
 		},
 	})
@@ -239,7 +252,32 @@ func c03Generate(c *mon.Ctx) {
 
 	emitStr("", "hex-empty")
 
-	// 8. PRNG cases
+	// 8. histories
+	c.Random(c.N(600, 60000), func(r *gen.Rng) any {
+		pts := []oracle.Pt{gen.Fresh(r).P, gen.Fresh(r).P, pool.Draw(r).P}
+		var inputs [][]byte
+
+		for _, p := range pts {
+			inputs = append(inputs, oracle.EncC(p), oracle.EncU(p))
+		}
+
+		bad := oracle.EncC(pts[0])
+		bad[0] = 4
+		inputs = append(inputs, []byte{0}, bad, append([]byte{2}, oracle.Bytes32(oracle.P)...))
+		// keep the working set small so that inputs recur
+		inputs = [][]byte{inputs[r.Intn(len(inputs))], inputs[r.Intn(len(inputs))], inputs[r.Intn(len(inputs))]}
+		decs := []string{"Decode", "DecodeCompressed", "DecodeUncompressed", "UnmarshalBinary", "DecodeHex", "Decode", "DecodeCompressed"}
+		muts := []string{"", "", "double", "negate", "identity", "base", "add-g"}
+		cs := &c03Case{Dec: "seq", Class: "history"}
+
+		for i := 0; i < 10; i++ {
+			cs.Seq = append(cs.Seq, c03Step{Recv: r.Intn(2), Dec: decs[r.Intn(len(decs))], In: mon.H(inputs[r.Intn(len(inputs))]), Mut: muts[r.Intn(len(muts))]})
+		}
+
+		return cs
+	})
+
+	// 9. PRNG cases
 	c.Random(c.N(40000, 4000000), func(r *gen.Rng) any {
 		dec := c03ByteDecoders[r.Intn(len(c03ByteDecoders))]
 		pre := r.Intn(3)
@@ -355,8 +393,116 @@ func strictHex(s string) ([]byte, bool, bool) {
 	return out, true, upper
 }
 
+func c03RunSeq(c *mon.Ctx, cs *c03Case) {
+	recv := [2]*secp256k1.Element{}
+	model := [2]oracle.Pt{}
+	recv[0], model[0] = c03Pre(0)
+	recv[1], model[1] = c03Pre(1)
+	seen := map[string]bool{}
+
+	c.Count("seq")
+
+	for i, st := range cs.Seq {
+		in := mon.UnH(st.In)
+		e := recv[st.Recv]
+
+		var (
+			want   oracle.Pt
+			accept bool
+			err    error
+		)
+
+		c.Count("seq-steps")
+		c.Eval(1)
+
+		pan, pv := mon.Call(func() {
+			switch st.Dec {
+			case "Decode":
+				want, accept = oracle.DecodeRef(in, oracle.FormAny)
+				err = e.Decode(in)
+			case "UnmarshalBinary":
+				want, accept = oracle.DecodeRef(in, oracle.FormAny)
+				err = e.UnmarshalBinary(in)
+			case "DecodeHex":
+				want, accept = oracle.DecodeRef(in, oracle.FormAny)
+				err = e.DecodeHex(mon.H(in))
+			case "DecodeCompressed":
+				want, accept = oracle.DecodeRef(in, oracle.FormCompressed)
+				err = e.DecodeCompressed(in)
+			case "DecodeUncompressed":
+				want, accept = oracle.DecodeRef(in, oracle.FormUncompressed)
+				err = e.DecodeUncompressed(in)
+			default:
+				panic("harness: unknown decoder " + st.Dec)
+			}
+		})
+		if pan {
+			if m, ok := pv.(string); ok && len(m) > 8 && m[:8] == "harness:" {
+				panic(m)
+			}
+
+			c.Fail(fmt.Sprintf("step %d: %s panicked: %v", i, st.Dec, pv), "decode-seq-panic", nil)
+
+			return
+		}
+
+		if seen[st.In] {
+			c.Count("seq:repeat-after-mutation")
+		}
+
+		seen[st.In] = true
+
+		if accept != (err == nil) {
+			c.Fail(fmt.Sprintf("step %d of a decode history: %s(%s) accepted=%v, the predicate says %v", i, st.Dec, mon.Trunc(st.In, 70), err == nil, accept), "decode-seq-accept", map[string]any{"step": i})
+			return
+		}
+
+		if accept {
+			model[st.Recv] = want
+		}
+
+		switch st.Mut {
+		case "double":
+			e.Double()
+			model[st.Recv] = oracle.Dbl(model[st.Recv])
+		case "negate":
+			e.Negate()
+			model[st.Recv] = oracle.Neg(model[st.Recv])
+		case "identity":
+			e.Identity()
+			model[st.Recv] = oracle.Inf()
+		case "base":
+			e.Base()
+			model[st.Recv] = oracle.G()
+		case "add-g":
+			e.Add(secp256k1.Base())
+			model[st.Recv] = oracle.Add(model[st.Recv], oracle.G())
+		}
+
+		for j := range recv {
+			v, ok := mon.RawValue(recv[j])
+			if !ok || !v.Equal(model[j]) {
+				c.Fail(fmt.Sprintf("step %d of a decode history (%s into receiver %d, then %q): receiver %d holds %s, want %s", i, st.Dec, st.Recv, st.Mut, j, v, model[j]), "decode-seq-value", map[string]any{"step": i})
+				return
+			}
+
+			if ok2, why := mon.ElemIs(recv[j], model[j]); !ok2 {
+				c.Fail(fmt.Sprintf("step %d of a decode history: receiver %d: %s", i, j, why), "decode-seq-value", map[string]any{"step": i})
+				return
+			}
+		}
+	}
+
+	c.Seen(cs.Seq)
+}
+
 func c03Run(c *mon.Ctx, csAny any) {
 	cs := csAny.(*c03Case)
+	if cs.Dec == "seq" {
+		c03RunSeq(c, cs)
+		return
+	}
+
 	e, pre := c03Pre(cs.Pre)
 
 	var in []byte
